@@ -126,6 +126,11 @@ func arraySliceFunc(_ *ctx.EvalCtx, receiver object.Object, args ...object.Objec
 		end = elemsLen
 	}
 
+	// an end before the start gives an empty slice
+	if end < start {
+		end = start
+	}
+
 	return &object.Array{Elements: elems[start:end]}, nil
 }
 
